@@ -67,7 +67,7 @@ def main():
          'engines': [{'name': 'tlc', 'path': '/opt/veriftools/tla/tla2tools.jar', 'serves_properties': sorted(CHECKS),
                       'kind_free_text': 'TLA+ specification under /verif/spec model-checked by TLC; TLC also judges traces recorded from the real code and generates scenarios'}],
          'checks': checks, 'not_applicable': [],
-         'notes': 'Genuine defects found on the pinned tree were repaired by eleven unguarded "fix:" commits in /repo (see known_findings.json and DESIGN.md section 8). '
+         'notes': 'Genuine defects found on the pinned tree were repaired by twelve unguarded "fix:" commits in /repo (see known_findings.json and DESIGN.md section 8). '
                   'VERIF_REPO=<dir> redirects every check to another tree (used for seeded changes).'}
     with open(os.path.join(VERIF, 'MANIFEST.json'), 'w') as f:
         json.dump(m, f, indent=1)
